@@ -1,11 +1,14 @@
 package main
 
 import (
+	"encoding/binary"
 	"encoding/json"
 	"flag"
+	"hash/fnv"
 	"math"
 	"math/rand"
 	"sort"
+	"strconv"
 	"strings"
 	"time"
 
@@ -67,6 +70,25 @@ type lvRec struct {
 type resRec struct {
 	Z     int          `json:"z"`
 	Polys [][][][2]int `json:"polys"`
+	Fp    string       `json:"fp"` // fingerprint of the exact float64 bit patterns of every returned ordinate, in order
+}
+
+func fpOf(polys []geom.Polygon) string {
+	h := fnv.New64a()
+	var b [8]byte
+	for _, p := range polys {
+		h.Write([]byte{1})
+		for _, ring := range p {
+			h.Write([]byte{2})
+			for _, c := range ring {
+				for a := 0; a < 2; a++ {
+					binary.LittleEndian.PutUint64(b[:], math.Float64bits(c[a]))
+					h.Write(b[:])
+				}
+			}
+		}
+	}
+	return strconv.FormatUint(h.Sum64(), 16)
 }
 
 type snapRec struct {
@@ -209,7 +231,7 @@ func runSnap(sg *snapGrid, poly lpoly, ids []int, cfg snap.Config, w int) snapRe
 	}
 	sort.Ints(zs)
 	for _, z := range zs {
-		rr := resRec{Z: z, Polys: [][][][2]int{}}
+		rr := resRec{Z: z, Polys: [][][][2]int{}, Fp: fpOf(res[z])}
 		for _, p := range res[z] {
 			pp := [][][2]int{}
 			for _, ring := range p {
@@ -277,7 +299,9 @@ func snapTrace(args []string) int {
 		case "hole":
 			poly = genStarPoly(rng, *w, *nmax, b, true)
 		case "collapse":
-			poly = genCollapse(rng, *w, rng.Intn(5))
+			poly = genCollapse(rng, *w, rng.Intn(6))
+		case "rect":
+			poly = genRect(rng, *w)
 		case "arbitrary":
 			poly = genArbitrary(rng, *w, *nmax)
 		default:
